@@ -28,3 +28,24 @@ Definition chk_expr (B fb : nat) (ucat : list node) (e : expr) (obs : observatio
   | _, _ => false
   end.
 
+
+(* `v &= bs` on a model object: [eold] denotes the object before, [t] the Concats observed for the update,
+   [ret] what the statement returned (None: cycle RuntimeError), [after] the object re-observed afterwards *)
+Definition obs_eq (v : value) (o : list node * list edge * list node * list node) : bool :=
+  let '(ord, E, ins, outs) := o in
+  set_eqb (v_nodes v) ord && nodupb ord && eset_eqb (v_edges v) E && enodupb E
+  && set_eqb (v_ins v) ins && nodupb ins && set_eqb (v_outs v) outs && nodupb outs.
+Definition chk_update (B fb : nat) (ucat : list node) (eold : expr) (t : table) (bs : list expr)
+    (ret : observation) (after : list node * list edge * list node * list node) : bool :=
+  let isc := mk_isc B ucat in
+  match eval isc fb eold, sequence (map (eval isc fb) bs) with
+  | Ok (VModel m), Ok vb =>
+      let '(r, st) := update_graph isc (naming fb t) m vb in
+      obs_eq (VModel st) after &&
+      match r, ret with
+      | Ok m', Some o => obs_eq (VModel m') o
+      | ErrCycle, None => true
+      | _, _ => false
+      end
+  | _, _ => false
+  end.
